@@ -52,6 +52,11 @@ pub enum Op {
     /// debugging aid: record get_mapping() of a guest block as a Note
     #[serde(rename = "map")]
     Map { gb: u64 },
+    /// C09: get_mapping() of every guest cluster / the derived geometry
+    #[serde(rename = "mapall")]
+    MapAll,
+    #[serde(rename = "info")]
+    Info,
     /// allocator histories (hook H3): allocate `n` clusters / free the
     /// `idx`-th live allocation made through this op
     #[serde(rename = "alloc")]
@@ -137,6 +142,10 @@ pub struct Scenario {
     /// record the in-ram metadata view (hook H1) at every scheduler step
     #[serde(default)]
     pub sample_ram: bool,
+    /// C09: only the image structure is of interest (huge virtual sizes):
+    /// the flat model gets no guest blocks
+    #[serde(default)]
+    pub format_only: bool,
     /// C08: the host file must not grow beyond this many clusters (0 = no bound)
     #[serde(default)]
     pub bound_clusters: usize,
@@ -259,6 +268,11 @@ fn mk_params(bsb: u32, p: &Params, ro: bool) -> Qcow2DevParams {
     Qcow2DevParams::new(bsb as u8, p.rb, p.l2, ro, false)
 }
 
+thread_local! {
+    /// set when the library's formatter failed for the image being prepared
+    pub static FORMAT_FAIL: RefCell<Option<String>> = const { RefCell::new(None) };
+}
+
 pub fn img_bytes(src: &ImageSrc, bs: usize, backing: Option<String>) -> (Vec<u8>, Option<imgbuild::Truth>, Geom) {
     match src {
         ImageSrc::Format { cb, ro, vclusters } => {
@@ -268,7 +282,15 @@ pub fn img_bytes(src: &ImageSrc, bs: usize, backing: Option<String>) -> (Vec<u8>
             let clusters = 1 + rc_t.1 + rc_b.1;
             let img_size = ((clusters as usize) << cb) + bs;
             let mut buf = vec![0u8; img_size];
-            Qcow2Header::format_qcow2(&mut buf, size, *cb as usize, *ro as u8, bs).unwrap();
+            // a panic or an error of the formatter is data for C09
+            let r = std::panic::catch_unwind(std::panic::AssertUnwindSafe(|| {
+                Qcow2Header::format_qcow2(&mut buf, size, *cb as usize, *ro as u8, bs)
+            }));
+            match r {
+                Ok(Ok(())) => {}
+                Ok(Err(e)) => FORMAT_FAIL.with(|f| *f.borrow_mut() = Some(format!("error: {e:?}"))),
+                Err(_) => FORMAT_FAIL.with(|f| *f.borrow_mut() = Some("panic".to_string())),
+            }
             (
                 buf,
                 None,
@@ -480,7 +502,8 @@ impl Runner {
                 }
                 s.maxb[i] = bl.len();
             }
-            let (toks, kinds) = chain_truth(&truths);
+            let (mut toks, mut kinds) = if sc.format_only { (vec![], vec![]) } else { chain_truth(&truths) };
+            let _ = (&mut toks, &mut kinds);
             let btok: Vec<i64> = if truths.len() > 1 {
                 // what the chain below the top image supplies, in the top's block units
                 let mut lower: Vec<(Option<imgbuild::Truth>, Geom)> = truths[1..].to_vec();
@@ -492,6 +515,8 @@ impl Runner {
                 lower[0].1 = g0;
                 let (t, _) = chain_truth_sized(&lower, topg, low_vsize);
                 t
+            } else if sc.format_only {
+                vec![]
             } else {
                 vec![0; geom.vblocks()]
             };
@@ -510,12 +535,13 @@ impl Runner {
                 None => vec![],
             };
             let gj = json!({"cb": geom.cb, "ro": geom.ro, "bsb": geom.bsb, "bpc": geom.bpc(),
-                "vblocks": geom.vblocks(), "vclusters": geom.vclusters(), "l2n": geom.l2n(),
+                "vblocks": if sc.format_only {0} else {geom.vblocks()}, "vclusters": if sc.format_only {0} else {geom.vclusters()}, "l2n": geom.l2n(),
                 "rbn": geom.rbn(), "epb": geom.bs()/8, "rpb": (geom.bs()*8) >> geom.ro,
                 "bsz": geom.bs(), "vszb": geom.vsize >> 9});
             s.push(json!({"e":"Reset","name": sc.name, "g": gj, "devs": devs, "init": toks, "btok": btok, "maxb": 0,
                 "src": match &sc.images[0] { ImageSrc::Format{..} => "format", _ => "build" },
                 "bound": sc.bound_clusters * geom.bpc(),
+                "fmtfail": FORMAT_FAIL.with(|f| f.borrow_mut().take()).unwrap_or_default(),
                 "par": if sc.steps.iter().any(|o| matches!(o, Op::Par{..})) {1} else {0},
                 "kind": kinds, "comp": comp, "back": if n > 1 {1} else {0},
                 "punch_unsupported": if sc.punch_unsupported {1} else {0}}));
@@ -547,7 +573,10 @@ impl Runner {
         };
         let p = r.sc.params.clone();
         let bsb = r.sc.bsb;
-        r.open(&p, bsb, top_ro)?;
+        // a failing open is data (OpenRes event), not a harness failure
+        if let Err(e) = r.open(&p, bsb, top_ro) {
+            r.outcome.push(e);
+        }
         Ok(r)
     }
 
@@ -988,6 +1017,65 @@ impl Runner {
                     }
                     if let Err(e) = self.open(&p, self.geom.bsb, *ro) {
                         self.outcome.push(e);
+                    }
+                }
+                Op::MapAll => {
+                    if let Some(dev) = self.dev.take() {
+                        let w = self.world.clone();
+                        let g = self.geom;
+                        let n = g.vclusters();
+                        let res = block_on(&w, 0, async {
+                            let mut v = Vec::new();
+                            for gc in 0..n {
+                                match dev.get_mapping((gc as u64) << g.cb).await {
+                                    Ok(m) => {
+                                        use qcow2_rs::meta::MappingSource as M;
+                                        let k = match m.source {
+                                            M::DataFile => "d",
+                                            M::Backing => "b",
+                                            M::Zero => "z",
+                                            M::Compressed => "c",
+                                            M::Unallocated => "u",
+                                        };
+                                        let off = m.cluster_offset.unwrap_or(0);
+                                        v.push(json!({"k": k, "c": small_blk(off, g.cb), "s": off & ((1u64 << g.cb) - 1),
+                                                      "len": m.compressed_length.unwrap_or(0), "cp": if m.copied {1} else {0}}));
+                                    }
+                                    Err(e) => v.push(json!({"k": "err", "c": 0, "s": 0, "len": 0, "cp": 0, "msg": format!("{e:?}")})),
+                                }
+                            }
+                            v
+                        });
+                        match res {
+                            Ok(v) => self.ev(json!({"e":"MapAll","m":v})),
+                            Err(p) => {
+                                self.ev(json!({"e":"Panic","t":0,"msg":p}));
+                                self.panicked = true;
+                            }
+                        }
+                        if self.panicked {
+                            std::mem::forget(dev);
+                        } else {
+                            self.dev = Some(dev);
+                        }
+                    }
+                }
+                Op::Info => {
+                    if let Some(dev) = &self.dev {
+                        // Qcow2Info's fields are crate-private: read them from its Debug output
+                        let d = format!("{:?}", dev.info);
+                        let mut m = serde_json::Map::new();
+                        for part in d.trim_start_matches("Qcow2Info {").trim_end_matches('}').split(',') {
+                            let mut kv = part.split(':');
+                            if let (Some(k), Some(v)) = (kv.next(), kv.next()) {
+                                if let Ok(n) = v.trim().parse::<u64>() {
+                                    m.insert(k.trim().to_string(), json!(if n >= HUGE as u64 { HUGE } else { n as i64 }));
+                                }
+                            }
+                        }
+                        let p = self.sc.params.clone();
+                        self.ev(json!({"e":"Info","i":m,"l2sb": p.l2.map(|x| x.0 as i64).unwrap_or(-1), "rbsb": p.rb.map(|x| x.0 as i64).unwrap_or(-1),
+                                       "l2cnt": p.l2.map(|x| (x.1 >> x.0) as i64).unwrap_or(-1), "rbcnt": p.rb.map(|x| (x.1 >> x.0) as i64).unwrap_or(-1)}));
                     }
                 }
                 Op::Map { gb } => {
